@@ -36,6 +36,11 @@ chk("C05", "texel (real process, asan+rel)",
     "Held on every recorded session (counts in evidence). Histories and pacing are sampled, not enumerated; a hang is a bounded-wait verdict (60 s exit watchdog), arrival-before-send comparisons make the ordering verdicts sound on a loaded machine.",
     "timestamps taken by the reader thread; grammar in vlib/uci.py; Hash>128MB / Threads>8 not exercised",
     "DESIGN.md section 3 C05")
+chk("C14", "texel (two real processes per case)",
+    "runtime differential monitor: normalised UCI transcripts of a probe search in a fresh process vs after a seeded prior session + Clear Hash (and a second Clear Hash), plus repeat determinism",
+    "Held on every case run (32 quick / 1500 thorough; prior-session lengths around the 4-bit generation wrap are forced). Histories are sampled; equality of complete transcripts is an exact oracle per case.",
+    "Threads=1 probes, synthetic network; periodic time-driven statistics lines are excluded from the transcript (only the final node count is compared)",
+    "DESIGN.md section 3 C14")
 
 
 def main():
